@@ -40,3 +40,65 @@ def _read(p):
             return json.load(f)
     except (OSError, ValueError):
         return None
+
+
+def proxy_traces(ctx, runs_per_model):
+    """B2 for RunWrapper.tla: every catalogue model is run through tracing proxy arrays (vh proxytrace); TLC checks
+    with TraceRunWrapper.tla that each goroutine's element accesses stay inside ONE cell's footprint, that no two
+    goroutines serve one cell, that nothing is touched after Run has returned, and evaluates NoRace / FrameAlways /
+    JoinBeforeReturn on the observed read/write sets."""
+    from . import tracecheck
+    tr = os.path.join(ctx.scratch, "proxy.ndjson")
+    rc, out, err = run_vh(ctx, ["proxytrace", tr, str(runs_per_model)], timeout=1800)
+    if rc != 0:
+        raise Infra("proxytrace engine failed: " + err[-2000:])
+    s = last_json(out)
+    for m in s["mismatches"]:
+        # a model that cannot be run through proxies at all is a gap of the harness, not a verdict
+        raise Infra("model %s cannot be traced through proxy arrays: %s" % (m.get("model"), m.get("detail")))
+    total, rejects = tracecheck.validate_multi(ctx, "TraceRunWrapper", tr, reset_ev="run", timeout=1200, heap="4g")
+    for pos, ev, before in rejects:
+        head = before[0] if before else {}
+        ctx.report({"kind": "footprint-trace", "model": head.get("model")},
+                   "%s (nc=%s np=%s nb=%s t=%s oc=%s ot=%s, %s-backed): the element accesses observed through proxy arrays are not a behaviour of "
+                   "RunWrapper.tla: event #%d %s is not explained (a goroutine left its cell's footprint, two goroutines served one cell, "
+                   "the caller touched an element, or something was touched after Run returned); preceding events %s"
+                   % (head.get("model"), head.get("nc"), head.get("np"), head.get("nb"), head.get("t"), head.get("oc"), head.get("ot"),
+                      head.get("backend"), pos, json.dumps(ev), json.dumps(before[1:])[:900]),
+                   {"event": ev, "run": head, "before": before})
+    ctx.cov["evaluations"] += s["evaluations"]
+    ctx.cov["traces_validated_against_impl"] += s["distinct_nontrivial"]
+    ctx.notes["proxy_traces"] = {"runs": s["distinct_nontrivial"], "events": total, "rejected": len(rejects), **s["extra"]}
+    for smp in s["samples"][:1]:
+        ctx.sample(smp)
+
+    # binding self-tests: (a) one write moved to a neighbouring cell's row, (b) one access moved behind its "ret"
+    def wrong_row(evs):
+        run = None
+        for i, e in enumerate(evs):
+            if e["ev"] == "run":
+                run = e
+            if e["ev"] == "acc" and e["kind"] == "w" and run and run["nc"] >= 2 and e["locs"][0][0] == "O":
+                e["locs"][0][1] = (e["locs"][0][1] + 1) % run["nc"]
+                return "write to output row moved to another cell (event %d)" % i
+        raise Infra("no multi-cell run in the proxy log")
+
+    def late(evs):
+        for i, e in enumerate(evs):
+            if e["ev"] == "ret" and i > 0 and evs[i - 1]["ev"] == "acc":
+                evs[i - 1], evs[i] = evs[i], evs[i - 1]
+                return "last access of a run moved behind the return (event %d)" % i
+        raise Infra("no return preceded by an access in the proxy log")
+    # self-tests run on a short prefix of the log (a few runs are enough)
+    short = os.path.join(ctx.scratch, "proxy-short.ndjson")
+    with open(tr) as f, open(short, "w") as g:
+        runs = 0
+        for ln in f:
+            if '"ev":"run"' in ln:
+                runs += 1
+                if runs > 60:
+                    break
+            g.write(ln)
+    d1, _ = tracecheck.corrupt_and_expect_reject(ctx, "TraceRunWrapper", short, wrong_row, heap="2g")
+    d2, _ = tracecheck.corrupt_and_expect_reject(ctx, "TraceRunWrapper", short, late, heap="2g")
+    ctx.notes["proxy_binding_selftest"] = [d1 + ": rejected", d2 + ": rejected"]
